@@ -494,7 +494,12 @@ def parse_key(ml, f, key):
             m = f[key]
     except SyntaxError as e:
         return ("raise", type(e.__cause__).__name__ if e.__cause__ is not None else "SyntaxError")
-    return ("ok", observe(ml, m))
+    except Exception as e:   # noqa  KeyError (no candidate fragment), IndexError, ... : the drawing was not parsed
+        return ("raise", type(e).__name__)
+    try:
+        return ("ok", observe(ml, m))
+    except Exception as e:   # noqa  a molecule that cannot even be inspected
+        return ("raise", "observe:" + type(e).__name__)
 
 
 # ---------------------------------------------------------------------- T: node table
@@ -695,7 +700,10 @@ class FileRun:
                 self.exp.append(expect(fr))
             except Untypable:
                 self.exp.append(None)
-        self.f = load_file(ml, path)
+        try:
+            self.f = load_file(ml, path)
+        except Exception:   # noqa  the reader refuses the whole file
+            self.f = None
 
     def parse_all(self):
         """[(status, observation)] for every top-level fragment, in order, through molli.load_all"""
@@ -706,7 +714,7 @@ class FileRun:
                 warnings.simplefilter("ignore")
                 mols = ml.load_all(self.path, fmt="cdxml")
             out = [("ok", observe(ml, m)) for m in mols]
-        except SyntaxError:
+        except Exception:   # noqa
             # at least one fragment is refused: fall back to the per-label route
             out = None
         return out
@@ -739,8 +747,10 @@ def run(ctx, rep):
                         "PARTIAL: XML parsing, KD-tree label resolution (modelled as 5 nearest in L1, ties excluded), mean_plane/SVD "
                         "(normal = +ez on coplanar neighbours is checked differentially), accumulated out-of-plane displacements and "
                         "the ring branch are covered by the differential run and the oracle only"]
-    found = False
     known = set()
+
+    def found_real():
+        return any(v.sig != KNOWN_RING and not v.no_input for v in rep.violations)
 
     # ---------------------------------------------------------------- tie T
     try:
@@ -770,8 +780,6 @@ def run(ctx, rep):
     ccases, cmeta, gcases, gmeta, rcases, rmeta = [], [], [], [], [], []
 
     def viol(sig, text, replay):
-        nonlocal found
-        found = True
         if sig == KNOWN_RING:
             known.add(sig)
         rep.violate(sig, text, replay)
@@ -812,14 +820,13 @@ def run(ctx, rep):
 
     # ---------------------------------------------------------------- verdict on broken obligations
     if not tables_ok:
-        vlib.broken_obligation(rep, "C13_tables", "the decision tables could not be regenerated: " + table_err, found)
+        vlib.broken_obligation(rep, "C13_tables", "the decision tables could not be regenerated: " + table_err, found_real())
     elif not ok:
         # search: name the rows where the running parser and the model / the property disagree
         for t, o, atom in nodes_t:
             want = py_parse_node(t)
             got = atom
             if (want is None) != (got is None) or (want is not None and any(want[k] != got[k] for k in want)):
-                found = True
                 rep.violate(f"C13:node-decision:{t['type']}", f"probe node {t}: the parser made {got}, the drawing says {want}",
                             {"kind": "node-row", "typed": t})
                 break
@@ -827,22 +834,20 @@ def run(ctx, rep):
             want = py_bond_type(o, d)
             got = None if b is None else b["bt"]
             if want != got:
-                found = True
                 rep.violate(f"C13:bond-decision:order={o}:display={d}", f"probe bond Order={o!r} Display={d!r}: parsed bond type {got}, "
                             f"the drawing says {want}", {"kind": "bond-row", "order": o, "display": d})
                 break
         for d, _, pat in disps_t:
             if tuple(pat) != py_ring_star(d):
-                found = True
                 rep.violate(f"C13:display-decision:{d}", f"probe bond Display={d!r}: observed out-of-plane pattern {pat}, the drawing "
                             f"convention gives {py_ring_star(d)}", {"kind": "display-row", "display": d})
-        vlib.broken_obligation(rep, "C13_props", f"{where}\n{out[-1500:]}", found)
+        vlib.broken_obligation(rep, "C13_props", f"{where}\n{out[-1500:]}", found_real())
     for tag, bad, meta in (("const", bad_c, cmeta), ("geom", bad_g, gmeta), ("resolve", bad_r, rmeta)):
         if bad is None:
-            vlib.broken_obligation(rep, f"corr_{tag}", "a correspondence shard did not compile: " + json.dumps(rep.extra.get("shard_errors", ""))[-1500:], found)
+            vlib.broken_obligation(rep, f"corr_{tag}", "a correspondence shard did not compile: " + json.dumps(rep.extra.get("shard_errors", ""))[-1500:], found_real())
         elif bad:
             rep.extra[f"mismatching_{tag}_cases"] = [meta[i] for i in bad[:20]]
-            vlib.broken_obligation(rep, f"corr_{tag}", f"model and parser disagree on {len(bad)} case(s), e.g. {[meta[i] for i in bad[:5]]}", found)
+            vlib.broken_obligation(rep, f"corr_{tag}", f"model and parser disagree on {len(bad)} case(s), e.g. {[meta[i] for i in bad[:5]]}", found_real())
     return tuple(known)
 
 
@@ -876,8 +881,10 @@ def judge_file(ctx, rep, ml, fr, nm, kind, src, base, viol, ccases, cmeta, gcase
     np = np_()
     per_frag = []
     replay = {"kind": "file", "source": nm, "variant": kind, "seed": ctx.seed}
+    if fr.f is None:
+        viol(f"C13:parse:raises:{kind.split('+')[0]}", f"{fr.tag}: CDXMLFile refused the file", replay)
+        return None
     mols = fr.parse_all()
-    order_map = None
     if mols is None:
         mols = []
         for fg in fr.frags:
@@ -914,6 +921,25 @@ def judge_file(ctx, rep, ml, fr, nm, kind, src, base, viol, ccases, cmeta, gcase
             cmeta.append(f"{fr.tag}#{k}")
         except Untypable:
             rep.count("model:untypable")
+        # absolute handedness of a simple centre (convention: page y points down, a wedge comes towards the viewer =
+        # +z; with b, d two unmarked in-plane neighbours, triple(a - c, b - c, d - c) = z_a * ((b - c) x (d - c))_z)
+        if len(marks) == 1 and not nested and not any(a["cc"] for a in ea) and abs(ACTION[marks[0][2]][1]) == 1:
+            adj0 = adjacency(len(ea), eb)
+            sw, sign = ACTION[marks[0][2]]
+            c_, a_ = (marks[0][1], marks[0][0]) if sw else (marks[0][0], marks[0][1])
+            if in_ring(adj0, c_, a_) is False:
+                P0 = planar_start(frag, fr.bl)
+                Y = obs["coords"]
+                for b_, d_ in itertools.combinations([x for x in sorted(set(adj0[c_])) if x != a_], 2):
+                    cr = float(np.cross(P0[b_] - P0[c_], P0[d_] - P0[c_])[2])
+                    if abs(cr) < 0.2:
+                        continue
+                    vol = float(np.dot(Y[a_] - Y[c_], np.cross(Y[b_] - Y[c_], Y[d_] - Y[c_])))
+                    rep.count("absolute-handedness-triples")
+                    if not vol * sign * cr > 0:
+                        viol("C13:handedness:absolute", f"{fr.tag} fragment {k}: bond {c_}->{a_} is drawn {marks[0][2]} but the centre {c_} "
+                             f"with neighbours ({a_}, {b_}, {d_}) has signed volume {vol:.4f} (the drawing gives the sign of {sign * cr:.3f})",
+                             dict(rp, centre=c_, triple=[a_, b_, d_]))
         # Coq: geometry (flat fragments without hapto centres that carry stereo marks)
         if marks and not nested and not any(a["cc"] for a in ea):
             steps, tags = geom_steps(ea, eb, marks)
